@@ -160,6 +160,7 @@ def _worker(args):
                 continue
             if lg.end in ("watchdog", "missing"):
                 stats["inconclusive"] += 1
+                stats.setdefault("inconclusive_cases", []).append(c.script)
                 continue
             stats["evaluations"] += 1
             vs, obs, nontrivial = eng.judge(prop, c, lg)
@@ -200,6 +201,7 @@ def run_engine(modname, prop, tier, seed, scen_bin, vchild, replay_cases=None):
             else:
                 total["obs"][k] = total["obs"].get(k, 0) + v
         total["samples"].extend(stats["samples"])
+        total.setdefault("inconclusive_cases", []).extend(stats.get("inconclusive_cases", []))
         viols.extend(vs)
     return total, viols
 
@@ -263,6 +265,8 @@ def conclude(prop, tier, seed, level, total, viols, t0, rule, min_obs=None, extr
     inconclusive = []
     if total["inconclusive"]:
         inconclusive.append("%d cases hit the watchdog twice" % total["inconclusive"])
+        for sc in total.get("inconclusive_cases", [])[:3]:
+            print("WATCHDOG case: %s" % sc)
     for k, need in (min_obs or {}).items():
         if obs.get(k, 0) < need:
             inconclusive.append("observed %s=%d < required %d" % (k, obs.get(k, 0), need))
